@@ -76,6 +76,12 @@ def run_histories(backend_cls, histories, hist_ids=None):
                 except Exception as e:  # snapshot failure is itself an observation
                     post = "SNAPFAIL:" + type(e).__name__
                 steps.append(Step(backend_cls.name, hist_ids[hi] if hist_ids else hi, k, o, pre, out, post))
+                oc = getattr(b, "outside_changed", None)
+                if oc is not None and not post.startswith("SNAPFAIL"):
+                    ch = oc()
+                    if ch:      # data outside the sub-filesystem was touched
+                        post = "SNAPFAIL:outside-changed %r" % (ch[:2],)
+                        steps[-1] = steps[-1]._replace(post=post)
                 if post.startswith("SNAPFAIL"):
                     break
                 pre = post
@@ -593,6 +599,17 @@ def symlink_scenarios():
     return res
 
 
+# histories that empty / move the ROOT of a sub-filesystem holding files and directories
+SUB_ROOT_HISTORIES = [
+    [("writebytes", "a", b"in-a"), ("makedir", "b", False), ("writebytes", "b/a", b"in-b-a"), ("removetree", "/")],
+    [("writebytes", "c", b"in-c"), ("writebytes", "ab", b"in-ab"), ("removetree", "")],
+    [("makedirs", "a/b", False), ("writebytes", "a/b/c", b"x"), ("writebytes", "b", b"y"), ("removetree", "/"),
+     ("listdir", "/")],
+    [("writebytes", "a", b"1"), ("makedir", "c", False), ("movedir", "/", "c", False, False)],
+    [("writebytes", "a", b"1"), ("makedir", "c", False), ("copydir", "/", "c/new", True, False)],
+]
+
+
 def run_c05(report):
     proof = common.preflight(report)
     thorough = report.tier == "thorough"
@@ -600,8 +617,10 @@ def run_c05(report):
     hs = gen_histories(report.seed + 505, 2500 if thorough else 350, 30 if thorough else 12, bias=bias, spell=0.1)
     regress = load_corpus("C05")
     steps = []
-    for bc in (B.Mem, B.OS, B.SubMem, B.Wrap, B.MountSub, B.MultiOne, B.SubOS, B.ZipW):
+    for bc in (B.Mem, B.OS, B.SubMem, B.Wrap, B.MountSub, B.MultiOne, B.SubOS, B.ZipW, B.SubMemDecoy, B.SubOSDecoy):
         use = regress + (hs if bc in (B.Mem, B.OS) or thorough else hs[:80])
+        if bc in (B.SubMemDecoy, B.SubOSDecoy):
+            use = SUB_ROOT_HISTORIES + use
         steps += [s for s in run_histories(bc, use) if s.op[0] in TRANSFER]
     # cross-filesystem functions
     rnd = random.Random(report.seed + 506)
